@@ -59,6 +59,15 @@ impl Monitor for C12 {
         vec!["trace_windows_checked", "domination_points_checked", "exactness_points_checked", "delta_min_items_compared"]
     }
 
+    fn unguarded_library_failure(&self, c: &crate::framework::Caught, rep: &mut CaseReport) -> bool {
+        // this property's objects must answer every query: a library panic / runaway loop that surfaces
+        // outside a guarded call (e.g. while the monitor inspects the shared cache) is a violation too
+        rep.violation(
+            format!("C12 kind=library-{}-outside-a-guarded-call class={}", c.kind, c.class()),
+            crate::jobj! {"caught" => c.to_json(), "case" => rep.sample.clone()},
+        );
+        true
+    }
     fn run_case(&self, _index: u64, seed: u64, _tier: Tier, rep: &mut CaseReport) {
         let mut rng = Rng::new(seed);
         // ---------------------------------------------------------------- (a) traces
@@ -116,6 +125,15 @@ impl Monitor for C12 {
         // low rates give sources with number_arrivals(1) = 0)
         let poisson: Option<(f64, f64)> = if rng.chance(1, 10) { Some((10f64.powf(-3.5 + 2.3 * rng.f64()), *rng.pick(&[0.1f64, 0.01, 0.001]))) } else { None };
         let src = g.any(&mut rng, 1);
+        // one source in 25: a sporadic model whose jitter exceeds 50 periods, converted with From<Sporadic>
+        // (the conversion sizes its unrolling by the jitter there)
+        let huge_jitter = poisson.is_none() && rng.chance(1, 25);
+        let src = if huge_jitter {
+            let t = rng.range(1, 4);
+            Arr::Sporadic { t, j: t * rng.range(51, 120) }
+        } else {
+            src
+        };
         if src.components().is_empty() {
             return;
         }
@@ -129,7 +147,10 @@ impl Monitor for C12 {
                 None => src.build(),
             }
         };
-        let conv = rng.range(0, 5);
+        let conv = if huge_jitter { 3 } else { rng.range(0, 5) };
+        if huge_jitter {
+            rep.count("sporadic_sources_with_jitter_above_50_periods", 1);
+        }
         let njobs = rng.usize(1, 12);
         let hor = rng.range(1, 8 * g.scale);
         type Built = (String, Box<dyn ArrivalBound>, u64, Json);
